@@ -58,7 +58,8 @@ def run(E: Engine, rep: Report, tier: str) -> dict:
 
     # --------------------------------------------------------------- FLOW
     from .. import sym
-    from .symutil import S, arg, has, is_, mentions, sh
+    from .symutil import S, arg, has, is_, mentions, sh, unobj
+    from .symutil import branches as _branches_util
 
     LAST = sym.Pattern("self[channel][-1]").term
     LAST_TF = ("attr", LAST, "tf")
@@ -120,6 +121,13 @@ def run(E: Engine, rep: Report, tier: str) -> dict:
                 d = sym.mk_add([t_end, sym.mk_neg(t)])
                 if not duration_ok(d):
                     ok_tf, why = False, f"tf - ti = {sh(d, 160)}"
+            # a pulse stored in a slot lasts exactly as long as the slot
+            ty = unobj(arg(l, 0, "type")) if arg(l, 0, "type") is not None else None
+            for _c, leaf in _branches_util(ty):
+                leaf = unobj(leaf)
+                if leaf is not None and leaf[0] == "call" and leaf[1][0] == "attr" and leaf[1][2] in ("ConstantPulse", "ConstantAmplitude", "ConstantDetuning") and leaf[2]:
+                    fills = ti is not None and tf is not None and leaf[2][0] == sym.mk_add([tf, sym.mk_neg(ti)])
+                    rep.check(fills, "FLOW", key + "|pulse-fills-its-slot", "the pulse built for the slot lasts tf - ti", f"the pulse stored in the slot lasts {sh(leaf[2][0], 80)} but the slot lasts {sh(sym.mk_add([tf, sym.mk_neg(ti)]), 80)}: the pulse does not occupy exactly its slot (and its samples do not fit the timeline)", where)
             rep.check(ok_ti, "FLOW", key + "|ti=previous-tf", "the slot starts at the end of the channel's current last slot (plus an adjusted automatic delay for pulses)", f"the start time of the new slot is not the end of the current last slot (plus a delay accepted by the channel): {why}", where)
             rep.check(ok_tf, "FLOW", key + "|tf=ti+validated-duration", "tf = ti + duration validated/adjusted by the channel", f"the end time is not `ti + <duration validated or adjusted by the channel>`: {why}", where)
     if n_ctor < 3 or set(per_fn) != {"add_delay", "add_target", "make_next_pulse_slot"}:
